@@ -12,7 +12,9 @@
      circuit-not-restored-or-lost    (trees without ForEach) final circuit differs, per qudit
      foreach-writeback-position      accepted results do not sit where the originals sat (per-qudit sequences)
      foreach-untouched-op-changed    an op that was not selected, or whose result was rejected, changed
-     passdata-not-restored-or-lost   user keys / placement / ForEach block data differ
+     passdata-not-restored-or-lost   user keys (incl. the deep value of the pre-existing mutable cell) / placement / gate set of the
+                                     model / ForEach block data differ; 5th element "DoThenDecide:shallow-snapshot" when a
+                                     shallow snapshot in DoThenDecide explains the observation (L2 variant)
      foreach-blockdata-order         block data are the expected ones but not in collection order
      foreach-error-formula           error # 1 - (1 - error_before)(1 - sum of errors of the replaced blocks), exact rationals
      mappings-not-restored           initial_mapping / final_mapping differ; the 5th element of the VERDICT line names the
@@ -61,7 +63,7 @@ CircClause(F) ==
   ELSE "foreach-writeback-position"
 
 \* ------------------------------------------------------------------ pass data
-PKey(x) == <<x.d, x.k, x.pl, Range(x.saw0), Len(x.saw0)>>
+PKey(x) == <<x.d, x.k, x.pl, Range(x.saw0), Len(x.saw0), x.cell.l, x.cell.x, x.gs>>
 ErrOf(x) == Norm(x.err[1], x.err[2])
 BKey(b) == <<PKey(b.dat), b.rep, IF C.calc THEN <<0, 1>> ELSE ErrOf(b.dat)>>
 Plain(o, e) == PKey(o) = PKey(e)
@@ -86,6 +88,10 @@ Explain ==
   ELSE IF AllMaps(Final({"dtd", "par"}).data) THEN "DoThenDecide+ParallelDo"
   ELSE "unexplained"
 
+\* user keys / placement / model / block data: does the shallow-snapshot variant of DoThenDecide explain the observation?
+PlainAll(D) == Plain(O.data, D) /\ Len(O.data.fe) = Len(D.fe) /\ FEShape(D) /\ FEPlain(D)
+ExplainP == IF PlainAll(Final({"shallow"}).data) THEN "DoThenDecide:shallow-snapshot" ELSE ""
+
 RECURSIVE NestedGroups(_, _)
 NestedGroups(t, inside) ==
   LET grp == t.k \in {"par", "foreach"} IN
@@ -99,10 +105,10 @@ Verdict ==
           ELSE IF F.failed THEN <<"failure-not-propagated", "">> ELSE <<"unexpected-failure", "">>)
   ELSE IF ~LogOK(F) THEN <<LogClause(F), "">>
   ELSE IF ~CircOK(F) THEN <<CircClause(F), "">>
-  ELSE IF ~Plain(O.data, D) THEN <<"passdata-not-restored-or-lost", "">>
+  ELSE IF ~Plain(O.data, D) THEN <<"passdata-not-restored-or-lost", ExplainP>>
   ELSE IF Len(O.data.fe) # Len(D.fe) THEN <<"passdata-not-restored-or-lost", "">>
   ELSE IF ~FEShape(D) THEN <<"foreach-body-count", "">>
-  ELSE IF ~FEPlain(D) THEN <<IF FEPermuted(D) THEN "foreach-blockdata-order" ELSE "passdata-not-restored-or-lost", "">>
+  ELSE IF ~FEPlain(D) THEN <<IF FEPermuted(D) THEN "foreach-blockdata-order" ELSE "passdata-not-restored-or-lost", ExplainP>>
   ELSE IF ~TopErrOK(D) THEN <<IF HasKind(C.tree, "foreach") THEN "foreach-error-formula" ELSE "passdata-not-restored-or-lost", "">>
   ELSE IF ~AllMaps(D) THEN <<"mappings-not-restored", Explain>>
   ELSE <<"ok", "">>
